@@ -132,7 +132,7 @@ func runWorld(run *rep.Run, rng *rand.Rand, eng, bal string, id int) {
 			return base
 		})
 		backs = append(backs, b)
-		eps = append(eps, world.Endpoint{Name: n, URL: b.URL(), Type: types[i], Priority: 100, CheckInterval: 2 * time.Second, CheckTimeout: 500 * time.Millisecond})
+		eps = append(eps, world.Endpoint{Name: n, URL: b.URL(), Type: types[i], Priority: 100, CheckInterval: 2 * time.Second, CheckTimeout: 1500 * time.Millisecond})
 	}
 	defer func() {
 		for _, b := range backs {
